@@ -74,6 +74,13 @@ def PC.kOK : PC → Bool
 def newHd (h : Hd) (sender : Bool) : Prop :=
   h.sender = sender ∧ h.alive = false ∧ h.used = true ∧ h.busy = false ∧ h.view = false
 
+/-- the record of a handle under construction by `add_stream` (a view handle's new stream gets a view handle) -/
+def newHd0 (h : Hd) (sender : Bool) : Prop :=
+  h.sender = sender ∧ h.alive = false ∧ h.used = true ∧ h.busy = false
+
+/-- program points of the calls that create a handle -/
+def PC.newPath (pc : PC) : Bool := pc.cloneS || pc == .cr1 || pc.addPC || pc.afterNew
+
 /-- per-thread facts -/
 structure TLoc (σ : St) (x : Th) : Prop where
   busy : x.pc ≠ .idle → (σ.hs x.g).busy = true ∧ (σ.hs x.g).used = true
@@ -100,13 +107,15 @@ structure TLoc (σ : St) (x : Th) : Prop where
   dr : (x.pc = .un1 ∨ x.pc = .dr1) → x.g ∈ σ.cl x.s ∧ (σ.hs x.g).alive = false
   rem : x.pc.remPC = true → σ.cl x.s = [] ∧ σ.est x.s = true
   add : x.pc.addPC = true →
-    x.g ∈ σ.cl x.s ∧ (σ.hs x.g).sender = false ∧ σ.cl x.ns = [] ∧ newHd (σ.hs x.ng) false ∧ (σ.hs x.ng).stream = x.ns
+    x.g ∈ σ.cl x.s ∧ (σ.hs x.g).sender = false ∧ σ.cl x.ns = [] ∧ newHd0 (σ.hs x.ng) false ∧ (σ.hs x.ng).stream = x.ns
   isg : x.pc = .isg → x.g ∈ σ.cl x.s ∧ (σ.hs x.g).sender = false
   retS : x.pc = .ret .single → x.outer = .intoSingle → σ.cl x.s = [x.g]
   /-- the new handle is counted, on the stream it will report -/
   aft : x.pc.afterNew = true → (x.outer = .clone ∨ x.outer = .addStream) →
     (σ.hs x.ng).alive = false ∧ (σ.hs x.ng).used = true ∧ (σ.hs x.ng).busy = false ∧
     ((σ.hs x.ng).sender = true → x.ng ∈ σ.sl) ∧ ((σ.hs x.ng).sender = false → x.ng ∈ σ.cl (σ.hs x.ng).stream)
+  /-- only the creating calls run the creating programs -/
+  op : x.pc ≠ .idle → x.pc.newPath = false → x.outer ≠ .clone ∧ x.outer ≠ .addStream
 
 /-- the thread is creating a handle `ng` -/
 def Th.creating (y : Th) : Prop :=
